@@ -22,6 +22,19 @@ CHECKS = {
     ),
 }
 
+CHECKS['C05'] = dict(
+    category='proof',
+    text=('The body of the shift-reduce loop of Category.parse and its exit code are executed symbolically (real ast) as a step function on '
+          'configurations with arbitrary bottoms; 17 chain links (atom with/without feature, openers, slash, functor reduction, redundant round/angle '
+          'brackets, rejection of two unbracketed slashes inside brackets and at top level, exits) are discharged by z3 for all tokens and all '
+          'sub-categories; printers are proved equal to the canonical-text spec. The tokenizer (re/split) and the three-part Feature.parse branch are '
+          'assumed library contracts, and together with the whole round trip are additionally run as a BOUNDED check on the real code '
+          '(all values up to 3-4 atoms, bracket/blank variants, every shipped category string) - the bounded part is labelled and not counted as proof.'),
+    design_ref='DESIGN.md section 4, C05',
+    note=TB_PY + '; tokenizer contract and the induction over the bracketing are on paper (DESIGN.md C05)',
+    technique='contract-based deductive verification: chain links of the real loop body as step function + z3; bounded stand-in for the tokenizer',
+)
+
 NA_REASON = {}
 
 
